@@ -307,4 +307,8 @@ def _substitute(expr, mapping):
     s = ast.unparse(e)
     for k, v in mapping.items():
         s = s.replace("\x00" + k + "\x00", v)
+    if ")[" in s or "][" in s:
+        # (a, b)[1] -> b : constant index into a display (tuple-unpacking of unrolled loops / inlined helpers)
+        from .decide import simplify_text
+        s = simplify_text(s)
     return s
